@@ -356,3 +356,66 @@ func init() {
 	handlers["resume"] = resumeLine
 	handlers["reinit"] = reinitLine
 }
+
+// apiseq <cfg> <seed|-> <hexsrc>... : the whole public API sequence on one VM, every call under recover:
+// Parse, GetAsmText, RunAfterParsed, Ret.ToString/ToRepr, GetDetailText x2, Matched/RestInput, then Run again.
+// Prints "ok <n>" or the first panic "panic <hexmsg> <chain> at=<step> src=<index>".
+func apiSeqLine(t []string) string {
+	if len(t) < 4 {
+		return "bad-op"
+	}
+	cfg, ok := parseCfg(t[1])
+	if !ok {
+		return "bad-op"
+	}
+	vm, ok := newVM(cfg, t[2])
+	if !ok {
+		return "bad-op"
+	}
+	steps := 0
+	for idx, h := range t[3:] {
+		src, ok := unhx(h)
+		if !ok {
+			return "bad-op"
+		}
+		var perr error
+		calls := []struct {
+			name string
+			f    func()
+		}{
+			{"Parse", func() { perr = vm.Parse(src) }},
+			{"GetAsmText", func() { _ = vm.GetAsmText() }},
+			{"RunAfterParsed", func() {
+				if perr == nil {
+					_ = vm.RunAfterParsed()
+				}
+			}},
+			{"Ret.ToString", func() {
+				if vm.Ret != nil {
+					_ = vm.Ret.ToString()
+					_ = vm.Ret.ToRepr()
+				}
+			}},
+			{"GetDetailText", func() { _ = vm.GetDetailText(); _ = vm.GetDetailText() }},
+			{"Matched", func() { _ = vm.Matched + vm.RestInput + vm.GetErrorText() }},
+			{"Run", func() { _ = vm.Run(src) }},
+			{"GetDetailText2", func() { _ = vm.GetDetailText() }},
+			{"Ret.ToString2", func() {
+				if vm.Ret != nil {
+					_ = vm.Ret.ToString()
+				}
+			}},
+			{"Attrs.ToJSON", func() { _, _ = vm.Attrs.ToJSON() }},
+		}
+		for _, c := range calls {
+			steps++
+			r := safely(func() string { c.f(); return "" })
+			if r != "" {
+				return fmt.Sprintf("%s at=%s src=%d", r, c.name, idx)
+			}
+		}
+	}
+	return fmt.Sprintf("ok %d", steps)
+}
+
+func init() { handlers["apiseq"] = apiSeqLine }
